@@ -168,9 +168,10 @@ def agree(c, io, mo, ctx):
         if close(r, y, abs(y)):
             return None
         quot = qparse(mo["quot"])
-        near = abs(quot - round(quot)) <= 64 * Fraction(2) ** -53 * max(m, abs(quot))
-        if near and abs(exact(r) - y) <= 1:
-            return None  # the float quotient may fall on the other side of an integer
+        tol = 64 * Fraction(2) ** -53 * max(m, abs(quot))
+        near = abs(quot - round(quot)) <= tol
+        if near and abs(exact(r) - y) <= 1 + tol:
+            return None  # the float quotient (within tol of the exact one) may fall on the other side of an integer
         return "floor division gives %r, the floor of the exact matched quotient is %s" % (r, float(y))
     if c["op"] in ("add", "sub") and c.get("e1") == c.get("e2") and c.get("c1") == c.get("c2"):
         # quantity1 == quantity2: one float operation on the two values
